@@ -78,6 +78,9 @@ pub fn profile(prop: u32) -> Vec<u32> {
             bump(Fam::SortedEp, 20);
         }
         x if x == C07 => {
+            // (a leaked iter_mut guard leaves the order unspecified: the bulk constructors and
+            // conversions that follow must still return "a correctly ordered queue")
+            bump(Fam::IterMutLeak, 2);
             bump(Fam::Extend, 20);
             bump(Fam::Append, 12);
             bump(Fam::FromVec, 6);
@@ -658,7 +661,18 @@ pub fn run_hist(cfg: &RunCfg, mut src: StepSrc, opts: &HistOpts) -> RunResult {
     let mut i = 0usize;
     while i < total {
         let st = match &mut src {
-            StepSrc::Gen(g) => g.step(&m, q.kind(), cfg),
+            // while the order is suspended (a leaked iter_mut guard rewrote priorities) one step in
+            // three is an operation documented to rebuild the heap: it must cope with an
+            // unordered source, and from there on the order oracles are back on
+            StepSrc::Gen(g) => {
+                if cx.order_suspended && g.rng.chance(1, 3) {
+                    let fam = *g.rng.pick(&[Fam::Convert, Fam::Convert, Fam::FromVec, Fam::FromIter, Fam::Retain, Fam::IterMut, Fam::CloneFrom]);
+                    cx.probe("rebuild_requested_while_order_suspended");
+                    g.step_of(fam, &m, q.kind(), cfg)
+                } else {
+                    g.step(&m, q.kind(), cfg)
+                }
+            }
             StepSrc::List(l) => l[i].clone(),
             StepSrc::ListThenAmplify(l, g, _) => {
                 if i < l.len() {
